@@ -2832,7 +2832,8 @@ func predicateHelperSites(c *Ctx, f *ssa.Function) ([]ssa.CallInstruction, bool)
 	if f.Object() == nil || f.Object().Exported() || f.Signature.Results().Len() != 1 {
 		return nil, false
 	}
-	if bt, ok := f.Signature.Results().At(0).Type().Underlying().(*types.Basic); !ok || bt.Kind() != types.Bool {
+	isErr := f.Signature.Results().At(0).Type().String() == "error"
+	if bt, ok := f.Signature.Results().At(0).Type().Underlying().(*types.Basic); !isErr && (!ok || bt.Kind() != types.Bool) {
 		return nil, false
 	}
 	node := c.CallGraph().Nodes[f]
@@ -2858,7 +2859,21 @@ func predicateHelperSites(c *Ctx, f *ssa.Function) ([]ssa.CallInstruction, bool)
 					if y.Op == token.NOT {
 						walk(y, !neg)
 					}
+				case *ssa.BinOp:
+					// an error-returning helper: `err != nil` is "true" in the sense of the polarity (a non-nil error)
+					if isErr && x == v {
+						if cn, isC := y.Y.(*ssa.Const); isC && cn.Value == nil {
+							if y.Op == token.NEQ {
+								walk(y, neg)
+							} else if y.Op == token.EQL {
+								walk(y, !neg)
+							}
+						}
+					}
 				case *ssa.If:
+					if isErr && x == v {
+						continue
+					}
 					// Succs[0] is taken when the tested value is true, i.e. when the helper returned !neg
 					rej0, rej1 := blockRejects(y.Block().Succs[0]), blockRejects(y.Block().Succs[1])
 					if rej0 == rej1 {
@@ -2891,6 +2906,21 @@ func pathReturnsBool(from, to *ssa.BasicBlock, val bool, depth int) bool {
 		return false
 	}
 	isVal := func(v ssa.Value) bool {
+		if v.Type().String() == "error" {
+			// for an error-returning helper "true" stands for a non-nil error
+			if cv, ok := v.(*ssa.Const); ok {
+				return cv.Value == nil && !val
+			}
+			if call, ok := v.(*ssa.Call); ok && val {
+				if sc := call.Call.StaticCallee(); sc != nil && sc.Pkg != nil && (sc.Pkg.Pkg.Path() == "fmt" && sc.Name() == "Errorf" || sc.Pkg.Pkg.Path() == "errors" && sc.Name() == "New") {
+					return true
+				}
+			}
+			if _, ok := v.(*ssa.MakeInterface); ok && val {
+				return true
+			}
+			return false
+		}
 		cv, ok := v.(*ssa.Const)
 		return ok && cv.Value != nil && cv.Value.Kind() == constant.Bool && constant.BoolVal(cv.Value) == val
 	}
